@@ -10,11 +10,13 @@
 (*   nearest class k in the MRO of c that has a registration (by class or   *)
 (*   by qualified name) -> the printer registered for k; otherwise the      *)
 (*   first-registered predicate accepting the value; otherwise repr.        *)
-(* Where a class holds both a by-class and a by-name registration the       *)
-(* property text can be read as "latest wins" or as leaving the order of    *)
-(* the two kinds open; AllowedPrint admits either, and Stable demands that   *)
-(* the choice never changes between two registrations (prints and           *)
-(* is_registered queries are not registrations).                            *)
+(* "A later registration for a class replaces an earlier one, deferred and    *)
+(* direct registration being equivalent": where a class holds both a by-class  *)
+(* and a by-name registration the LATER one is the effective one (this is      *)
+(* also how an independent reader of the property understood it, see           *)
+(* seeded/C15).  Stable additionally demands that the printer used for a class *)
+(* never changes between two registrations (prints and is_registered queries   *)
+(* are not registrations).                                                     *)
 (*                                                                         *)
 (* CONCRETE state = what the module keeps:                                  *)
 (*   direct[c]   pretty_dispatch.registry            (0 = absent)           *)
@@ -48,10 +50,12 @@ REPR == 0        \* printer id 0 = default repr / "absent"
 -----------------------------------------------------------------------------
 (* Abstract registration history, reduced to what the rule needs            *)
 
-AbsInit == [dir |-> [c \in Classes |-> 0], nam |-> [c \in Classes |-> 0], preds |-> <<>>]
+AbsInit == [dir |-> [c \in Classes |-> 0], nam |-> [c \in Classes |-> 0],
+            later |-> [c \in Classes |-> "none"], preds |-> <<>>]
 
-ARegClass(a, c, p) == [a EXCEPT !.dir[c] = p]
-ARegName(a, c, p) == [a EXCEPT !.nam[c] = p]
+\* later[c]: the kind of the most recent registration for c
+ARegClass(a, c, p) == [a EXCEPT !.dir[c] = p, !.later[c] = "class"]
+ARegName(a, c, p) == [a EXCEPT !.nam[c] = p, !.later[c] = "name"]
 ARegPred(a, q, p) == [a EXCEPT !.preds = Append(@, <<q, p>>)]
 
 HasReg(a, k) == a.dir[k] # 0 \/ a.nam[k] # 0
@@ -69,7 +73,7 @@ FirstPred(preds, c) ==
 \* the set of printers the property allows for an instance of c
 AllowedPrint(a, c) ==
   LET i == NearestReg(a, c) IN
-  IF i # 0 THEN {a.dir[Mro[c][i]], a.nam[Mro[c][i]]} \ {0}
+  IF i # 0 THEN (IF a.later[Mro[c][i]] = "class" THEN {a.dir[Mro[c][i]]} ELSE {a.nam[Mro[c][i]]})
   ELSE LET j == FirstPred(a.preds, c) IN
        IF j # 0 THEN {a.preds[j][2]} ELSE {REPR}
 
